@@ -429,6 +429,35 @@ func cmdCheck(args []string) int {
 				trusted = append(trusted, "trusted (unverified) contract: "+k+" — "+specs.Contracts[k].TrustWhy)
 			}
 		}
+		// hypotheses stated as preconditions of the functions that are entry points of the chain (handlers, blockers, hooks,
+		// genesis): invariants of the stored state that are assumed at entry and not discharged by this check
+		var entryHyp []string
+		for _, k := range sortedKeys(specs.Contracts) {
+			ct := specs.Contracts[k]
+			isEntry := ct.Recv == "msgServer" || ct.Recv == "Hooks" || (ct.Recv == "" && (ct.Func == "BeginBlocker" || ct.Func == "EndBlocker" || ct.Func == "EndBlock" || ct.Func == "InitGenesis" || ct.Func == "ExportGenesis"))
+			if !isEntry {
+				continue
+			}
+			used := false
+			for _, n := range fnNames {
+				if n == k {
+					used = true
+				}
+			}
+			if !used {
+				continue
+			}
+			for _, rq := range ct.Requires {
+				if len(entryHyp) < 400 {
+					entryHyp = append(entryHyp, pkgShort(ct.Pkg)+"."+ct.shortName()+": requires "+rq.Src)
+				}
+			}
+			for _, np := range ct.NoPanic {
+				if np.E != nil && len(entryHyp) < 400 {
+					entryHyp = append(entryHyp, pkgShort(ct.Pkg)+"."+ct.shortName()+": no-panic claimed only when "+np.Src)
+				}
+			}
+		}
 		ev := map[string]interface{}{
 			"property_id": *prop, "tier": *tier, "seed": seedFromEnv(), "level": "proof",
 			"coverage": map[string]interface{}{
@@ -443,6 +472,7 @@ func cmdCheck(args []string) int {
 				"trusted_contracts_used":   trustedUsed,
 				"bounded":                  boundedInfo,
 				"replayed_counterexamples": canaryInfo,
+				"entry_hypotheses":         entryHyp,
 			},
 			"assumptions": standingAssumptions,
 			"wall_s":      round2(wall),
@@ -465,6 +495,10 @@ var standingAssumptions = []string{
 	"key constructors are injective; prefix stores with different prefix constants are disjoint",
 	"gas metering, events, logging and telemetry are not modelled",
 	"the wiring of keepers and store keys in app/app.go is as the interface binding table states",
+	"store key-field invariants (an entry under key k has value.F == k) are checked at every raw write of the code under contract (#storeinv@ obligations) and assumed at every read; writers outside the verified set are assumed to go through the same Set accessors",
+	"decoded store values are well typed: machine-integer fields of unmarshal(bytes) lie in their ranges",
+	"ghost function sumDur: its two defining equations plus prefix-independence and monotonicity (inductive consequences) are assumed as axioms",
+	"preconditions of entry points (coverage.entry_hypotheses) are hypotheses about the reachable state: each handler re-establishes the clauses it touches, but their conjunction is not discharged as one inductive invariant; only the key-field and id invariants are discharged against genesis",
 }
 
 func seedFromEnv() int {
